@@ -186,14 +186,15 @@ Definition gen_sx (s : schema) : sx :=
   SL [SB (s_error s); strs_set (s_imports s); SL (map assoc_sx (s_assoc s)); SL (map table_sx (s_tables s))].
 
 (* ---------------------------------------------------------------- (C) what SQLAlchemy makes of a schema (compared only) *)
-(* column and foreign-key attribute names of the tables above t in the DAO hierarchy *)
+(* column, foreign-key and relationship attribute names of the tables above t in the DAO hierarchy *)
 Fixpoint inherited_attrs (fuel : nat) (s : schema) (t : table) : list string :=
   match fuel with
   | O => []
   | S k => match t_base t with
            | None => []
            | Some b => match find (fun u => String.eqb (t_name u) b) (s_tables s) with
-                       | Some u => map col_name (t_builtin u ++ t_custom u) ++ map fk_name (t_fks u) ++ inherited_attrs k s u
+                       | Some u => map col_name (t_builtin u ++ t_custom u) ++ map fk_name (t_fks u)
+                                   ++ map rel_name (t_rels u) (* 84214c3 *) ++ inherited_attrs k s u
                        | None => []
                        end
            end
